@@ -84,6 +84,64 @@ theorem setter_rules (st st' : TState α) (i : Nat) (b : Bool) (h : setRequiresG
       · rfl
   · simp at h
 
+/-! ### tensors made from tensors without an op -/
+
+/-- **A detached tensor is a plain tensor whatever its source holds**: it does not require grad, has no
+    backward function, no operands and NO gradient — also when the source is a leaf after backward, a retained
+    intermediate or the root of a call (all of which hold a buffer), and in either grad mode. -/
+theorem detach_is_plain (st st' : TState α) (i k : Nat) (h : detach st i = some (st', k)) :
+    ∃ n, st'.g[k]? = some n ∧ n.reqGrad = false ∧ n.back = none ∧ n.children = [] ∧ n.grad = none ∧ n.retain = false := by
+  unfold detach at h
+  split at h
+  · rename_i v dt _ _
+    simp only [mkTensor, Bool.false_and, Bool.false_eq_true, if_false, Option.some.injEq, Prod.mk.injEq] at h
+    obtain ⟨h1, h2⟩ := h
+    subst h1; subst h2
+    exact ⟨{ children := [], reqGrad := false, back := none, retain := false, grad := none, zero := NDArray.zeros v.shape },
+      by simp, rfl, rfl, rfl, rfl, rfl⟩
+  · simp at h
+
+/-- **The tensor handed out by the `.grad` getter is plain** (when there is a buffer at all). -/
+theorem gradTensor_is_plain (st st' : TState α) (i k : Nat) (h : gradTensor st i = some (some (st', k))) :
+    ∃ n, st'.g[k]? = some n ∧ n.reqGrad = false ∧ n.back = none ∧ n.children = [] ∧ n.grad = none := by
+  unfold gradTensor at h
+  split at h
+  · rename_i n dt _ _
+    split at h
+    · rename_i g _
+      simp only [mkTensor, Bool.false_and, Bool.false_eq_true, if_false, Option.map_some, Option.some.injEq, Prod.mk.injEq] at h
+      obtain ⟨h1, h2⟩ := h
+      subst h1; subst h2
+      exact ⟨{ children := [], reqGrad := false, back := none, retain := false, grad := none, zero := NDArray.zeros g.shape },
+        by simp, rfl, rfl, rfl, rfl⟩
+    · simp at h
+  · simp at h
+
+/-- **The `.data` round trip follows the leaf-creation rule**: `Tensor(t.data, requires_grad=b)` requires grad iff
+    `b` and the grad mode — nothing of the source's flags, history or buffer comes along. -/
+theorem fromData_is_leaf (st st' : TState α) (i k : Nat) (b : Bool) (h : fromData st i b = some (st', k)) :
+    ∃ n, st'.g[k]? = some n ∧ n.reqGrad = (b && st.modes.grad) ∧ n.back = none ∧ n.children = [] ∧ n.grad = none := by
+  unfold fromData newLeaf at h
+  split at h
+  · rename_i v dt _ _
+    obtain ⟨n, a, b', c, d, e⟩ := mkTensor_flag st st' v dt b [] none k h
+    refine ⟨n, a, b', ?_, ?_, e⟩
+    · rw [d]; split <;> rfl
+    · rw [c]; split <;> rfl
+  · simp at h
+
+/-- **The copy constructor `Tensor(t)` yields the source's attributes, all of them** (`copy_from`). -/
+theorem copyTensor_same (st st' : TState α) (i k : Nat) (h : copyTensor st i = some (st', k)) :
+    k = st.g.length ∧ st'.g[k]? = st.g[i]? ∧ st'.vals[st.vals.length]? = st.vals[i]? := by
+  unfold copyTensor at h
+  split at h
+  · rename_i n v dt hn hv _
+    simp only [Option.some.injEq, Prod.mk.injEq] at h
+    obtain ⟨h1, h2⟩ := h
+    subst h1; subst h2
+    exact ⟨rfl, by simp [hn], by simp [hv]⟩
+  · simp at h
+
 variable [Add α]
 
 /-- **backward() is refused on a tensor that does not require grad.** -/
